@@ -38,19 +38,31 @@ NOTES = {
     'T10_n1': 'first run: caught only by mechanism obligations (the trigger needs 600 000 loop iterations, beyond the model budget) -> C07 implementation-only probes: 1.5 million iterations with continue / break / calls in while and for loops, expected results computed by the harness',
     'T10_n2': 'first run: caught only by a mechanism obligation -> C15: single lines around 4096 / 8192 / 65536 bytes that are much shorter in characters, alone and in containers',
     'R10_n2': 'first run: missed by all 20 -> C09 runs three 77 KB scripts of mostly three-byte characters (three alignments) through the real process',
+    'U01_n2': 'first run: missed by C08 (C09 saw it through a table obligation only) -> C08 and C09 now feed look-alikes of every keyword and built-in name (other normalisation form, joiner inside, mark appended, character dropped or doubled) in binding and use position',
+    'U02_n1': 'first run: missed by C02 (C17 caught the shared helper) -> C02: ** over 16 bases x integral exponents around every power of two up to 1075, both signs',
+    'U03_n1': 'first run: missed by C03, C04, C05, C18 -> C03: every form of for-initialiser (none, assignment, one declarator, lists of 2-3, uninitialised) against outer bindings, second loops, reads after the loop, closures; for-header declaring a list as a history event',
+    'U03_n2': 'first run: missed by C04, C03, C05 -> C04: escaping closures declared 0-2 levels below the scope that owns the captured variable (block, branch, loop body), leaving through a variable / array / object, called inside and after later scopes of the same shape',
+    'U04_n1': 'first run: missed by C05 (C14 and C06 saw the changed arm through their table obligations) -> C05: loop conditions whose operands change through functions called from body, increment or condition, growing arrays, properties; five comparison operators, for and while',
+    'U04_n2': 'first run: caught by C14 only through its table obligation (no failing input found) -> C14: every operator with a literal on one side and an operand with an effect (bare, parenthesised, assignment, index, property write) on the other: now reported with a concrete input',
+    'U05_n2': 'first run: missed by C19 (C08 and C09 caught the panic) -> C19: 36 texts whose last character decides (point after digits, star in an open comment, open string, lone operator ...) x final newline / none / blank / CRLF',
+    'U06_n1': 'first run: missed by C07, C02, C06, C19 -> C07: strings reaching a string-to-number coercion (arithmetic, comparison, index, built-in, unary minus, exponent) over every character of the Bengali block and the other digit and number-like ranges',
+    'U07_n2': 'first run: missed by C18, C03, C09, C01 -> C18: transformation "whole program on one line / one token per line" and explicit scope histories written both ways; C03: read-declare-read histories also on one line',
+    'U09_n1': 'first run: missed by C15, C02, C16, C13 -> C15: lines of more than 8 KB made of composable pairs and triples (spacing vowel signs, Hangul jamo, letter + accent) at every byte alignment',
+    'U10_n1': 'first run: missed by C16 (C02 and C15 caught the printed form) -> C16: 2^53, 2^60, 2^62 with shift, power, product, xor producers in all 128 contexts',
 }
 
 
 def main():
     rows = []
     metas = sorted(glob.glob(os.path.join(ROOT, 'seeded', '*', 'meta.json')))
-    n_c = n_r = n_s = n_t = 0
+    n_c = n_r = n_s = n_t = n_u = 0
     for p in metas:
         m = json.load(open(p))
         name = m['id']
         if name.startswith('R'): n_r += 1
         elif name[0] == 'S': n_s += 1
         elif name[0] == 'T': n_t += 1
+        elif name[0] == 'U': n_u += 1
         else: n_c += 1
         if m.get('rejected'):
             rows.append('| %s | %s | %s | - | rejected: %s |' % (name, cell(m.get('summary')), cell(m.get('needs')), cell(m['rejected'], 120)))
@@ -58,7 +70,7 @@ def main():
         tc = m.get('target_check') or {}
         ev = (tc.get('reasons') or [''])[0] if m.get('detected_by_target') else json.dumps(m.get('other_checks', {}), ensure_ascii=False)
         by = ', '.join(m.get('detected_by') or []) or 'MISSED'
-        if name[0] in 'RST':
+        if name[0] in 'RSTU':
             by = '%s (written against %s)' % (by, m.get('property'))
         note = NOTES.get(name)
         rows.append('| %s | %s | %s | %s | %s%s |' % (name, cell(m.get('summary')), cell(m.get('needs')), by, cell(ev, 170), (' - ' + note) if note else ''))
@@ -73,13 +85,16 @@ theme (number <-> text conversions, Unicode, error signalling, scopes and closur
 parser, lexer, performance-motivated caches and fast paths), given the twenty property texts and the summaries of all 110 earlier
 changes, asked for changes of a different kind that show only for rare inputs.  Round 5 (`Txx_nk`, 20 changes): ten agents on interactions (functions as values in containers, numeric boundaries, strings, statement corners, REPL vs
 script, objects, error reporting, lexical corners, built-in edges, resource-shaped behaviour), told to avoid triggers that are
-astronomically unlikely.  Each change was confirmed by `tools/seedtest.py` in a scratch worktree
+astronomically unlikely.  Round 6 (`Uxx_nk`, 20 changes): ten agents, each given the full text of two properties and nothing else, asked for one
+maintainer-plausible change per property (refactoring, optimisation, fast path, cache, "fix") that needs something specific to manifest and that a random
+program generator would be unlikely to hit; the first-run results are kept in `seeded/round6_first_run.log`.  Each change was confirmed by `tools/seedtest.py` in a scratch worktree
 (applies, builds, baseline suite unchanged, demonstration differs between clean and changed build) and then `./check <ID> --tier quick` was run with
 the checkout overridden to the changed tree; when the target check stayed silent all other checks were run.  Kept under `seeded/<name>/`
 (patch.diff, demonstration, meta.json).  After strengthening, every change is caught by the check of the property it was written against, with a
 concrete failing input, except R07_n3, which lies outside its property's domain, and S09_n2, which no search can trigger; both are
 caught by a mechanism obligation (reported as no-failing-input-found).  Of the 80 changes of rounds 3 to 5, 32 were missed by their
-target check on the first run and 13 by all twenty checks: every one led to a new generic input family or mechanism obligation.  The notes
+target check on the first run and 13 by all twenty checks; of the 20 of round 6, 10 were missed by their target check and 5 of those also by the
+checks of the neighbouring properties: every one led to a new generic input family or mechanism obligation.  The notes
 say what the first run missed and what was added (the added streams are generic - families of inputs, not the seeded input itself).
 
 | change | what was changed | needs | caught by | first evidence |
